@@ -2,7 +2,7 @@
 //! S-expression of a `PreExp` (spans dropped).
 use crate::rng::Rng;
 use crate::sx;
-use rooc::{BinOp, PreExp, Primitive, UnOp};
+use rooc::{BinOp, PreExp, Primitive};
 
 #[derive(Clone, Debug, PartialEq, Eq, Hash)]
 pub enum T {
@@ -122,7 +122,6 @@ pub fn bin_tok(s: &str) -> T {
         "->" => T::Arrow, "<->" => T::DArrow, "!" => T::Bang, w => T::Word(w.to_string()),
     }
 }
-pub fn un_spellings(op: UnOp) -> &'static [&'static str] { match op { UnOp::Neg => &["-"], UnOp::Not => &["not", "!"] } }
 
 /// keyword <-> alias swap of one token (None: has no other spelling)
 pub fn swap_alias(t: &T) -> Option<T> {
@@ -175,7 +174,7 @@ use rooc::domain_declaration::{Variable, VariablesDomainDeclaration};
 use rooc::math_enums::PreVariableType;
 use rooc::model_transformer::VariableKind;
 use rooc::pre_model::PreModel;
-use rooc::{Comparison, IterableSet, OptimizationType, PreConstraint};
+use rooc::{IterableSet, OptimizationType, PreConstraint};
 
 /// full `PreExp` (every variant) with numbers as Rust displays them
 pub fn pre_exp_full(e: &PreExp) -> String {
@@ -259,5 +258,3 @@ pub fn pre_model(m: &PreModel) -> String {
     s.push_str("))");
     s
 }
-#[allow(dead_code)]
-pub fn cmp_text(c: Comparison) -> &'static str { sx::cmp(c) }
